@@ -35,9 +35,13 @@ fn btreeset_intersection_cloned(a: &BTreeSet<VirtualTargetPath>, b: &BTreeSet<Vi
 fn btreeset_difference_cloned(a: &BTreeSet<VirtualTargetPath>, b: &BTreeSet<VirtualTargetPath>) -> (r: BTreeSet<VirtualTargetPath>)
     ensures r@ == a@.difference(b@)
 { a.difference(b).cloned().collect() }
-// D31: `A.iter().filter(F).cloned().collect()`: the elements of A on which F returns true
+// D31: `A.iter().filter(F).cloned().collect()`: the elements of A on which F returned true.
+// `ret_of(f, x)` names the value the (specification-deterministic) closure returned for x.
+pub open spec fn filter_ret<F: Fn(&&VirtualTargetPath) -> bool>(f: F, x: VirtualTargetPath) -> bool { choose|b: bool| f.ensures((&&x,), b) }
 #[verifier::external_body]
 fn btreeset_filter_cloned<F: Fn(&&VirtualTargetPath) -> bool>(a: &BTreeSet<VirtualTargetPath>, f: F) -> (r: BTreeSet<VirtualTargetPath>)
     requires forall|x: &&VirtualTargetPath| #[trigger] f.requires((x,)),
-    ensures forall|x: VirtualTargetPath| #[trigger] r@.contains(x) <==> (a@.contains(x) && f.ensures((&&x,), true)),
+             forall|x: &&VirtualTargetPath, b1: bool, b2: bool| f.ensures((x,), b1) && f.ensures((x,), b2) ==> b1 == b2,
+    ensures forall|x: VirtualTargetPath| #![trigger a@.contains(x)] #![trigger filter_ret(f, x)] a@.contains(x) ==> f.ensures((&&x,), filter_ret(f, x)),
+            forall|x: VirtualTargetPath| #[trigger] r@.contains(x) <==> (a@.contains(x) && filter_ret(f, x)),
 { unimplemented!() }
